@@ -1430,6 +1430,15 @@ def run_analyzer(spec):
     if rohf:
         uks = False
     mol = zoo.make_mol(rng.choice(["H2", "LiH", "H2O"] if not (uks or rohf) else ["OH", "O", "H2"]), "sto-3g")
+    if derive("analyzer-geometry", spec["seed"]) % 2:
+        # a geometry as it comes out of an optimiser or a trajectory file: one NumPy row per
+        # atom, all sixteen digits significant (a text form of the molecule must keep them)
+        from pyscf import gto
+
+        rg = np.random.default_rng(spec["seed"] + 991)
+        xyz = mol.atom_coords(unit="Bohr") + rg.normal(size=(mol.natm, 3)) * 1e-3 * np.pi
+        mol = gto.M(atom=[[mol.atom_symbol(i), xyz[i]] for i in range(mol.natm)], basis="sto-3g", spin=mol.spin, charge=mol.charge, unit="Bohr" if spec["seed"] % 4 < 2 else "Angstrom", verbose=0)
+        ck.stats["analyzer_geometry_as_numpy_rows"] += 1
     nao = mol.nao_nr()
     r = np.random.default_rng(spec["seed"])
     dm = zoo.make_dm(mol, rng, 2 if (uks or rohf) else 1)
